@@ -387,15 +387,15 @@ struct TicketNoTry : public photon::ticket_spinlock { int try_lock() { return -1
 static int run_spin_section() {
     vh::Rng r(vh::args().xseed());
     int nthreads = r.pick({2, 3, 4, 8});
-    uint64_t ops = vh::args().geti("ops", vh::args().thorough() ? 200000 : 40000);
+    uint64_t ops = vh::args().geti("ops", vh::args().thorough() ? 80000 : 40000);
     if (vh::is_tsan()) ops /= 4;
     vh::config("section", "spin"); vh::config("os_threads", nthreads); vh::config("ops_per_thread", ops);
     vh::start_supervisor([](std::string& k, std::string& w, std::string&) {
         k = "stuck/spinlock"; w = "OS threads made no progress on a spinlock for the silence window"; return true; }, 20000);
     spin_section<photon::spinlock, true>("spinlock", nthreads, ops, r);
     // queue locks convoy badly when a waiter is preempted: fewer operations
-    spin_section<TicketNoTry, false>("ticket_spinlock", nthreads, ops / 4, r);
-    spin_section<photon::qspinlock, true>("qspinlock", nthreads, ops / 4, r);
+    spin_section<TicketNoTry, false>("ticket_spinlock", nthreads, ops / 16, r);
+    spin_section<photon::qspinlock, true>("qspinlock", nthreads, ops / 16, r);
     vh::set_sig("spin|t" + std::to_string(nthreads) + "|tryfail:" + std::to_string(vh::log2bucket(c_spin_try_fail.get())),
                 c_spin_acq.get() > 0 && nthreads >= 2);
     vh::sample(vh::JObj().kv("section", "spin").kv("os_threads", nthreads).kv("acquired", c_spin_acq.get())
